@@ -20,8 +20,8 @@ RULE = ("expressions from the grammar expr := term ((+|-) term)*, term := factor
         "redundant parentheses, dyadic operands, spaced and unspaced; evaluated inside random histories that interleave "
         "parse failures ('1 +', '( 1', '1 + ( 2 *'), invalid identifiers ('foo + 1', which parse and fail in evaluation "
         "leaving tokens behind) and validator rejections; value compared with an exact-rational recursive-descent "
-        "evaluator; stack-discipline hook on fx_parser.exprStack / evaluate_stack (tokens consumed by the outermost "
-        "evaluation == tokens this parse pushed).  Validator: token strings over numbers / statistics / operators / "
+        "evaluator (the deciding oracle); a hook on fx_parser.exprStack / evaluate_stack records tokens pushed vs consumed "
+        "(observation only).  Validator: token strings over numbers / statistics / operators / "
         "parentheses / junk, accepted iff every token is allowed.  create_config: synthetic constant-in-time "
         "climatologies (12 mid-month steps, random lat/lon grids with NaN land cells, 2-D and 3-D) written as NetCDF-3, "
         "random boxes with >=1 data cell, 1..364-day ranges incl. year crossing; spans compared with expressions on "
@@ -252,6 +252,7 @@ def part_eval(ctx) -> None:
                 ctx.notes.append(f"oracle disagreement on {text}: {want} vs {want2}")
                 continue
             before = len(fx.exprStack)
+            prefix = list(fx.exprStack)
             hook.consumed = None
             try:
                 got = fx.eval_fx(text, stats)
@@ -271,12 +272,13 @@ def part_eval(ctx) -> None:
                 ctx.violation(f"C20:eval:wrong-value:after-{prev}",
                               {"kind": "eval_fx", "expr": text, "stats": stats, "expected": wf, "observed": got,
                                "previous_in_history": prev, "stack_len_before": before})
-            if hook.consumed is not None and pushed >= 0:
+            # the hook only applies to the append-only stack strategy (tokens of earlier parses left in place)
+            if hook.consumed is not None and pushed >= 0 and fx.exprStack[:before] == prefix:
                 ctx.count("c20.stack_hook_observations")
                 if hook.consumed != pushed and pushed > 0:
-                    ctx.violation("C20:eval:stack-discipline",
-                                  {"kind": "eval_fx", "expr": text, "pushed_by_this_parse": pushed,
-                                   "consumed_by_evaluation": hook.consumed, "previous_in_history": prev})
+                    # recorded only: the value oracle over histories decides; the bookkeeping of the stack is an
+                    # implementation strategy (e.g. clearing the stack before each parse is equally correct)
+                    ctx.count("c20.stack_hook_pushed_ne_consumed")
             prev = "valid"
 
 
@@ -437,6 +439,8 @@ def part_creator(ctx) -> None:
             wb = {"kind": "create_config", "three_d": three_d, "lat": lat.tolist(), "lon": lon.tolist(),
                   "field(first depth)": core.jsonable(field), "bbox": bbox, "start": start.isoformat(), "end": end.isoformat(),
                   "tests": tests, "in_box_stats": stats, "in_box_sum": float(cells.sum())}
+            import copy as _copy
+            vcfg_before = _copy.deepcopy(vcfg)
             try:
                 dsc = {"name": "synthetic", "file_path": str(path), "variables": {"temp": "tvar"}}
                 if three_d:
@@ -447,6 +451,23 @@ def part_creator(ctx) -> None:
                 ctx.violation(f"C20:create_config:raised:{type(e).__name__}@{P.client_where(e)}", {**wb, "error": repr(e)[:300]})
                 continue
             ctx.count("c20.create_config_runs")
+            if vcfg != vcfg_before:
+                ctx.violation("C20:create_config:caller-config-modified",
+                              {**wb, "config_before": core.jsonable(vcfg_before), "config_after": core.jsonable(vcfg)})
+            # a box holding no grid node has to be widened by the library; whatever it returns, the caller's
+            # bounding box list must come back untouched (a second variable may share it)
+            if it % 4 == 1:
+                empty_box = [float(lon[0]) + 0.2, float(lat[0]) + 0.2, float(lon[0]) + 0.4, float(lat[0]) + 0.4]
+                shared = list(empty_box)
+                v2 = dict(vcfg, bbox=shared)
+                try:
+                    creator.create_config(QcVariableConfig(v2))
+                except Exception:  # noqa: BLE001
+                    pass
+                ctx.count("c20.create_config_widened_box_runs")
+                if shared != empty_box:
+                    ctx.violation("C20:create_config:caller-bbox-modified",
+                                  {**wb, "bbox_before": empty_box, "bbox_after": shared})
             gk = ("3d" if three_d else "2d") + ("|zero-sum" if zero_case else "") + ("|year-crossing" if end.year != start.year else "")
             ctx.case(f"creator|{gk}|land{int(np.isnan(inbox).any())}|cells{min(cells.size, 4)}|{'+'.join(sorted(tests))}",
                      sample={k: wb[k] for k in ("bbox", "start", "end", "tests", "in_box_stats")})
